@@ -192,18 +192,41 @@ def _run_one(args):
         return idx, None, traceback.format_exc()
 
 
+def _cov_start():
+    """line-reach map of the code under test (only when VERIF_COVERAGE names a data directory)"""
+    d = os.environ.get("VERIF_COVERAGE")
+    if not d:
+        return None
+    import coverage
+
+    os.makedirs(d, exist_ok=True)
+    cov = coverage.Coverage(data_file=os.path.join(d, "cov"), data_suffix=True, include=[os.path.join(REPO, "pyyeti", "*")])
+    cov.start()
+    return cov
+
+
+def _cov_stop(cov):
+    if cov is not None:
+        cov.stop()
+        cov.save()
+
+
 def _worker(conn):
     import signal
 
     signal.signal(signal.SIGINT, signal.SIG_IGN)
-    while True:
-        try:
-            item = conn.recv()
-        except EOFError:
-            return
-        if item is None:
-            return
-        conn.send(_run_one(item))
+    cov = _cov_start()
+    try:
+        while True:
+            try:
+                item = conn.recv()
+            except EOFError:
+                return
+            if item is None:
+                return
+            conn.send(_run_one(item))
+    finally:
+        _cov_stop(cov)
 
 
 def _isolate(mod, idx, shard, timeout):
